@@ -247,19 +247,17 @@ Definition parse_spec (ts : list token) : option (list (option string * sexpr)) 
 
 End Parse.
 
-(* parse(): the text gets a final ';' unless it ends with one (trailing white space ignored, as repaired) *)
-Fixpoint rstrip_rev (l : chars) : chars :=
-  match l with c :: r => if is_space c then rstrip_rev r else l | [] => [] end.
-Definition prepare (s : string) : chars :=
-  let l := rev (rstrip_rev (rev (to_chars s))) in
-  match rev l with
-  | ";"%char :: _ => l
-  | _ => l ++ [";"%char]
+(* parse(): the text gets a final ';' unless its last token is one (decided on the token stream, so that white space and
+   comments after the last token do not matter, as repaired: D53) *)
+Definition prepare (ts : list token) : list token :=
+  match rev ts with
+  | TSym SSemi :: _ => ts
+  | _ => ts ++ [TSym SSemi]
   end.
 
 Definition parse_text (stl : bool) (s : string) : option (list (option string * sexpr)) :=
-  let l := prepare s in
+  let l := to_chars s in
   match lex (S (List.length l)) l with
-  | Some ts => parse_spec stl ts
+  | Some ts => parse_spec stl (prepare ts)
   | None => None
   end.
